@@ -151,6 +151,30 @@ func checkC14(p *core.Program, r *core.Report) {
 				}
 			})
 		}
+		// R1c: token and running flag are published under the timer mutex before the goroutine starts
+		if token != nil {
+			lsArm := core.Locksets(a.fn, core.LockSet{})
+			var tokStore ssa.Instruction
+			core.EachInstr(a.fn, func(in ssa.Instruction) {
+				if f, _, v := core.StoredField(in); f != nil && core.Canon(v) == token {
+					tokStore = in
+				}
+			})
+			key := "token of " + name + " published before the goroutine starts"
+			held := false
+			if tokStore != nil {
+				for id := range lsArm[tokStore] {
+					if strings.HasSuffix(id, "handshakeTimerMux") {
+						held = true
+					}
+				}
+			}
+			if tokStore != nil && held && core.Dominates(tokStore, a.goInstr) {
+				r.OK(R1, key, p.Pos(tokStore.Pos()), "stored under the timer mutex, before the go statement")
+			} else {
+				r.Fail(R1, key, p.Pos(a.goInstr.Pos()), "the arming function does not store its token under the timer mutex before it starts the timer goroutine: the goroutine's identity check can see a stale or missing token")
+			}
+		}
 		// R3 fire path: calls with a constant true argument into package ship
 		var fires []ssa.Instruction
 		core.EachInstr(a.body, func(in ssa.Instruction) {
